@@ -20,6 +20,8 @@ import uuid
 from fractions import Fraction
 
 import more_itertools.recipes as _recipes
+import sys
+
 import predicate as P
 from predicate.generator import helpers as _helpers
 from predicate.generator.generate_false import generate_false
@@ -959,6 +961,28 @@ def safety_check(pid, mode, tier):
                     chk.add_failure({"mode": mode, "spec": repr(s), "predicate": show_spec(s), "seed": chk.seed * 1000 + k, "position": i},
                                     {"what": f"generate_{'true' if want else 'false'} yielded a value on which the predicate does not return {want}", "value": repr(v)[:300], "predicate_returned": out},
                                     explain_safety(mode, s, r))
+    # ---- float bounds at the edge of the double range (|b| > 8.9e307: 2*b overflows; the Lean model's exact arithmetic does not
+    # describe overflow, so these are judged on the real code only, with real seeds)
+    edge = [1e308, -1e308, 1.7e308, -1.7e308, sys.float_info.max, -sys.float_info.max, 8.99e307, -8.99e307]
+    edge_specs = [(h, b) for h in (("ge", "gt", "le", "lt") if mode == "T" else ("ge", "gt")) for b in edge]
+    edge_judged = 0
+    for s_ in edge_specs:
+        p_ = build(s_)
+        for k in range(2 if quick else 8):
+            items, st, _, _ = pull_impl(mode, p_, 12, EVENTS, seed=chk.seed * 1000 + 31 + k)
+            if st.startswith("error"):
+                chk.add_failure({"mode": mode, "spec": repr(s_), "predicate": show_spec(s_), "seed": chk.seed * 1000 + 31 + k, "position": len(items)},
+                                {"what": f"generate_{'true' if want else 'false'} failed with {st} on a bound at the edge of the double range"}, explain_safety(mode, s_, st))
+            for i, v in enumerate(items):
+                r = call(p_, v)
+                edge_judged += 1
+                if r is not want:
+                    out = r if isinstance(r, str) else repr(r)
+                    chk.add_failure({"mode": mode, "spec": repr(s_), "predicate": show_spec(s_), "seed": chk.seed * 1000 + 31 + k, "position": i},
+                                    {"what": f"generate_{'true' if want else 'false'} yielded a value on which the predicate does not return {want} (bound at the edge of the double range)", "value": repr(v)[:300], "predicate_returned": out},
+                                    explain_safety(mode, s_, r))
+                    break
+    chk.extra["edge_of_double_range"] = {"specs": len(edge_specs), "values_judged": edge_judged}
     # ---- history: the values a stream yields belong to the caller.  Draw from both generators of a spec, change every
     # yielded container in place (empty ones get an item, non-empty ones are emptied; nested ones too), then open a NEW
     # stream: its values must still satisfy / violate the predicate (a sample object shared between streams shows here)
@@ -988,7 +1012,7 @@ def safety_check(pid, mode, tier):
     chk.extra["history_streams"] = {"specs": len(hist_specs), "values_judged": hist_judged}
     for d in (dis + edis)[:20]:
         chk.add_failure(d["input"], {"what": "model and implementation disagree: " + str(d.get("what", "evalG")), **{k: v for k, v in d.items() if k not in ("input", "what")}}, None)
-    chk.evaluations = judged + searched + hist_judged
+    chk.evaluations = judged + searched + hist_judged + edge_judged
     chk.extra.update(specs=len(specs), specs_skipped_because_optimize_raises=sorted(set(SKIPPED)), cases=len(cases), prefix_length=n, status_counts=status_count, kinds=kinds, values_judged_on_tapes=judged,
                      values_judged_with_real_seeds=searched, max_line_events_per_successful_next=max_events, fuel=FUEL, events_budget=EVENTS,
                      int_bounds=[str(x) for x in INT_BOUNDS], float_bounds=FLOAT_BOUNDS)
